@@ -412,9 +412,16 @@ type c18Server struct {
 	served chan error // result of ListenAndServe*
 }
 
+// close closes the server as the process exit would; a Close that hangs (it should not) is left behind.
 func (s *c18Server) close() {
-	if s.srv != nil {
-		s.srv.Close()
+	if s.srv == nil {
+		return
+	}
+	done := make(chan struct{})
+	go func() { s.srv.Close(); close(done) }()
+	select {
+	case <-done:
+	case <-time.After(2 * time.Second):
 	}
 }
 
